@@ -147,6 +147,13 @@ public:
     }
     else
     {
+      if(size > _capacity)
+      { // reserve() relocates the elements and value may refer to one of them
+        T valueCopy(value);
+        reserve(size);
+        resize(size, valueCopy);
+        return;
+      }
       reserve(size);
       T* end = _begin.item + size;
       for (T* i = _begin.item + _size; i != end; ++i)
@@ -191,6 +198,12 @@ public:
   T& append(const T& value)
   {
     usize size = _end.item - _begin.item;
+    if(size + 1 > _capacity)
+    { // reserve() relocates the elements and value may refer to one of them
+      T valueCopy(value);
+      reserve(size + 1);
+      return append(valueCopy);
+    }
     reserve(size + 1);
     T* item = _end.item;
 #ifdef VERIFY
